@@ -13,7 +13,7 @@ else:
     _p = _props[pid]
     prop = f"{pid} - {_p.get('title', '')}\n\n{_p.get('statement', _p.get('description', ''))}\n"
 earlier = ""
-if wave in ("3", "4", "5"):
+if wave in ("3", "4", "5", "6"):
     # one-line descriptions of the changes earlier authors already produced for this property (their own words; nothing of /verif's checks)
     lines = []
     for d in sorted(glob.glob(f"/verif/seeded/{pid}-*/")):
@@ -76,7 +76,14 @@ for a legal but less common tensor - a multi-dimensional neuron / observation sh
 dimension, batch size > 1 together with a non-square shape, a non-contiguous or expanded (stride-0) input, float64 / bool / int64
 data, time-first versus time-last layout (a reshape that should be a permute, `dim=-1` for `dim=1`, `view` on a non-contiguous
 tensor, a hard-coded number of dimensions, a reduction over the wrong axis that coincides for square or 1-D shapes).
-""" + earlier if wave == "5" else "") + f"""
+""" + earlier if wave == "5" else "") + ("""Mutant a should be a DOCUMENTED-DETAIL slip: read the docstrings (Notes, Important boxes, formulas, argument descriptions,
+'Returns' sections) of the functions and classes the property is anchored in and of what they call; pick one concrete documented
+detail that the property relies on - a formula term, the meaning of an argument or of a returned value, an ordering, a unit, which
+of two quantities is used, what happens for None - and make the code silently deviate from exactly that detail while staying
+plausible (the docstring stays as it is).
+Mutant b is your FREE CHOICE: the subtlest property-breaking change you can find that is not in the list below - think about
+what a careful reviewer would most likely wave through.
+""" + earlier if wave == "6" else "") + f"""
 For EACH mutant (a, b):
  1. Make the change in the worktree (start each from a clean tree: `git -C {wt} checkout -- .`).
  2. Run the existing test suite and make sure it still passes:
